@@ -165,8 +165,6 @@ def families(q, schema):
             fam.append("enum_unknown_variant")
         if f.kind == "u64" and l.lit_kind == "int_negative":
             fam.append("u64_negative_literal")
-        if f.kind in ("datetime", "date") and l.op == "!=":
-            fam.append("datetime_neq")
         if f.kind == "string" and l.op in ("<", "<=", ">", ">="):
             fam.append("string_ordering")
     out = []
